@@ -30,6 +30,9 @@ ASSUMPTIONS = [
     "externals table; CPython ast",
 ]
 
+# externals that may look at the whole chunk because they only need its length / iterate it row by row
+CHUNK_LEVEL_OK = {"len", "enumerate", "copy.deepcopy", "range", "zip"}
+
 ROW_PARTITIONED = [("base_mab", "BaseMAB._parallel_predict"), ("approximate", "_LSHNearest._fit_operation"),
                    ("simulator", "_LSHSimulator._fit_operation"), ("simulator", "_NeighborsSimulator.calculate_distances")]
 
@@ -139,6 +142,28 @@ def check_row_locality(ctx, F, c, root, sim, seen_impls):
                     ctx.violate("R5.1", "%s draws from %s, which is not the row generator, in the per-row loop of "
                                 "%s" % (user.qualname, held_by, fn.qualname),
                                 site, site_fn, "%s; path %s [%s%s]" % (why, chain, "sim:" if sim else "", c.name))
+        # (f) nothing is computed from the whole chunk of rows outside the per-row loop, except trusted row-wise maps
+        for ev, a2 in walk(pc):
+            if ev.kind != "ext" or id(ev) in in_loop or ev.fn is not fn:
+                continue
+            name = ev.a["name"]
+            vals = list(ev.a.get("args", [])) + list(ev.a.get("kwargs", {}).values())
+            if ev.a.get("recv") is not None and name not in (".predict",):
+                vals.append(ev.a["recv"])
+            chunk = [v for v in vals if ("param", "contexts") in v.deps]
+            if not chunk or name in CHUNK_LEVEL_OK:
+                continue
+            if name == ".predict" and ev.a.get("recv") is not None and any(
+                    (eng.obj(r).cls or "").startswith("ext:sklearn.") and "KMeans" in eng.obj(r).cls
+                    for r in ev.a["recv"].refs if r in eng.heap.objs):
+                ctx.ok("R5.1", "%s: the only chunk-level computation is the row-wise cluster assignment" %
+                       fn.qualname, ev.node, ev.fn)
+                continue
+            ctx.violate("R5.1", "%s computes %s from the whole chunk of rows outside the per-row loop" %
+                        (fn.qualname, name.lstrip(".")), ev.node, ev.fn,
+                        "a value shared by the rows of a worker's chunk makes a row's result depend on which other "
+                        "rows are in its chunk, i.e. on n_jobs (e.g. cdist estimates the variances of seuclidean / "
+                        "mahalanobis from all rows it is given) [%s%s]" % ("sim:" if sim else "", c.name))
         # (c) objects living across iterations that are mutated in the body
         _check_carried(ctx, F, w, c, pc, loop, fn, sim)
         # (d) start_index only as start_index + index
